@@ -172,7 +172,9 @@ def apply(F, S):
             if s in ("Minimum", "Maximum"):
                 ok4 = True
                 for conds, leaf in leaves(ret):
-                    if not (isinstance(leaf, tuple) and leaf[0] == "select" and leaf[1] == post_b):
+                    # a load from the updated window — or the value this very call stored into it (`return input` on the new-extreme path)
+                    stored_now = isinstance(post_b, tuple) and post_b and post_b[0] == "store" and leaf == post_b[3]
+                    if not ((isinstance(leaf, tuple) and leaf[0] == "select" and leaf[1] == post_b) or stored_now):
                         ok4 = False
                 if ok4:
                     S.ok("F4", "%s returns a slot of its window" % lab, ret=show(ret)[:100])
